@@ -66,7 +66,16 @@ static void construct(slot_t *s, int si, int form, int r)
         }
         case CF_BUFF: {
             long L; char *t = gen_text_class(gen_tc(), &L);
-            long n; int k = (int) vh_below(5);
+            long n; int k = (int) vh_below(6);
+            if (k == 5) {       /* no buffer at all, with a size of zero or a few bytes: an empty text that is still a well-formed object */
+                n = vh_coin(50) ? 0 : vh_range(1, 20);
+                vh_op("s%d %s(NULL, %ld) r%d", si, opn, n, r);
+                vh_count("buff_null", 1);
+                if (re) ok = c_init_from_buff(r, o, NULL, n); else o = c_new_from_buff(r, NULL, n);
+                m_set(s, "", 0);
+                free(t);
+                break;
+            }
             n = k == 0 ? 0 : k == 1 ? (L ? (long) vh_below((uint64_t) L) : 0) : k == 2 ? L : k == 3 ? L + 1 : L + vh_range(2, 40);
             char *b = n <= L ? vh_heapdup(t, (size_t) n) : vh_heapstr(t);        /* exact-size block: n bytes without NUL, or the whole string */
             vh_op("s%d %s(%s, %ld) text length %ld r%d", si, opn, vh_q(t, L > 60 ? 60 : L), n, L, r);
